@@ -526,12 +526,25 @@ func (c Cap) Union(other Cap) Cap {
 	otherRadius := other.Radius()
 	distance := c.center.Distance(other.center)
 	if cRadius >= distance+otherRadius {
-		return c
+		// The angles above are only accurate to within rounding, so other
+		// may stick out of c by a few ulps: AddCap grows c only if needed.
+		return c.AddCap(other)
 	}
 
 	resRadius := 0.5 * (distance + cRadius + otherRadius)
 	resCenter := InterpolateAtDistance(0.5*(distance-cRadius+otherRadius), c.center, other.center)
-	return CapFromCenterAngle(resCenter, resRadius)
+	result := CapFromCenterAngle(resCenter, resRadius)
+	if !result.IsValid() {
+		// The interpolation can fail (NaN) when the two centers are antipodal
+		// up to denormalized offsets. Any cap containing both will do.
+		return c.AddCap(other)
+	}
+	// The center and radius computed above carry the rounding errors of
+	// several trigonometric functions, so the boundary of the result can
+	// miss points of c or other (even their centers) by a few ulps. AddCap
+	// has the error analysis needed to guarantee containment, and it only
+	// grows the radius when that is necessary.
+	return result.AddCap(c).AddCap(other)
 }
 
 // Encode encodes the Cap.
